@@ -8,34 +8,70 @@ from .lifter import Term, walk_terms, get_size, SizeError, show
 FLAGS = ('of', 'nf', 'zf', 'af', 'pf', 'cf', 'df')
 
 
-def reads_of(t, mem_read=True):
-    """get_r(mem_read) as expression.py defines it, on terms: identifiers (by name) and memory cells (terms)."""
-    ids, mems = set(), set()
+GETR_SPEC = None     # set by load_getr_spec(): {kind: [(field, forwards mem_read)]} derived from expression.py
 
-    def rec(x):
+
+def load_getr_spec(ctx):
+    """Which fields each node class's get_r descends into, and whether it forwards its mem_read parameter -- read from
+    expression.py through the field matrix (E6), so that a get_r that skips a child or drops the flag shows up in every
+    read set computed here."""
+    global GETR_SPEC
+    from .fieldmatrix import Matrix, NODE_CLASSES
+    import ast as _ast
+    mod = ctx.mod('expression')
+    M = Matrix(mod)
+    spec = {}
+    for c in NODE_CLASSES:
+        mi = M.methods[c].get('get_r')
+        kind = c[4:]
+        ent = []
+        if mi is not None:
+            params = [a.arg for a in mi.fn.args.args]
+            mr = params[1] if len(params) > 1 else None
+            for f, meth, call in mi.calls:
+                if meth == 'get_r':
+                    passed = [_ast.unparse(a) for a in call.args] + [_ast.unparse(k.value) for k in call.keywords]
+                    ent.append((f, mr in passed))
+        spec[kind] = ent
+    GETR_SPEC = spec
+    return spec
+
+
+def reads_of(t, mem_read=True):
+    """get_r(mem_read) as expression.py defines it (per-class recursion taken from GETR_SPEC when loaded), on terms:
+    identifiers (by name) and memory cells (terms)."""
+    ids, mems = set(), set()
+    spec = GETR_SPEC
+
+    def fields(x):
+        k = x.kind
+        if spec is not None:
+            return spec.get(k, [])
+        return {'Mem': [('arg', True)], 'Op': [('args', True)], 'Cond': [('cond', True), ('src1', True), ('src2', True)],
+                'Slice': [('arg', True)], 'Compose': [('args', True)], 'Aff': [('src', True)]}.get(k, [])
+
+    def rec(x, mr):
         k = x.kind
         if k == 'Id':
             ids.add(x.name)
-        elif k == 'Mem':
+            return
+        if k == 'Mem':
             mems.add(x)
-            if mem_read:
-                rec(x.arg)
-        elif k == 'Op':
-            for a in x.args:
-                if isinstance(a, Term):
-                    rec(a)
-        elif k == 'Cond':
-            for a in (x.cond, x.src1, x.src2):
-                rec(a)
-        elif k == 'Slice':
-            rec(x.arg)
-        elif k == 'Compose':
-            for a in x.args:
-                rec(a[0])
-        elif k == 'Aff':
-            rec(x.src)
+            if not mr:
+                return
+        for f, fw in fields(x):
+            v = getattr(x, f, None)
+            sub_mr = mr if fw else False
+            if isinstance(v, Term):
+                rec(v, sub_mr)
+            elif isinstance(v, (list, tuple)):
+                for a in v:
+                    if isinstance(a, Term):
+                        rec(a, sub_mr)
+                    elif isinstance(a, tuple) and a and isinstance(a[0], Term):
+                        rec(a[0], sub_mr)
     if isinstance(t, Term):
-        rec(t)
+        rec(t, mem_read)
     return ids, mems
 
 
